@@ -1260,3 +1260,111 @@ Proof.
   - exists [119; 47; 100]. split; [reflexivity | cbn; discriminate].
   - exists []. split; [reflexivity | exact I].
 Qed.
+
+(* ================================================================ build-level bindings see the file scope only *)
+
+(* what actOnBuildBindingDecl records for one indented line, given the scope of the FILE (never the bindings the
+   statement has made so far) *)
+Definition bind_in_file_scope (sc : scopes) (p : vars) (b : bitem) : vars :=
+  match b with BBind n v => aset n (fst (eval_in_scope sc v)) p | BPErr _ => p end.
+
+(* every value of a build statement's block is evaluated in the enclosing file-level scope: the accumulated
+   build-level bindings [params] are never consulted, so the bindings of one statement do not see each other *)
+Theorem build_bindings_see_file_scope_only sc : forall binds params,
+  fst (build_bindings sc binds params) = fold_left (bind_in_file_scope sc) binds params.
+Proof.
+  induction binds as [|[n v|c] bs IH]; intros params; cbn [build_bindings fold_left bind_in_file_scope]; [reflexivity| |].
+  - destruct (eval_in_scope sc v) as [val es1]. specialize (IH (aset n val params)).
+    destruct (build_bindings sc bs (aset n val params)) as [p es2]. cbn [fst] in *. exact IH.
+  - specialize (IH params). destruct (build_bindings sc bs params) as [p es]. cbn [fst] in *. exact IH.
+Qed.
+
+(* x = v1 followed by y = $x in ONE build statement: y gets the file-level value of x, not v1 *)
+Theorem build_binding_ignores_earlier_binding sc x y v1 :
+  x <> [] -> all_simple x -> x <> y -> no_dollar v1 ->
+  aget y (fst (build_bindings sc [BBind x v1; BBind y (36 :: x)] [])) = Some (lookup_binding sc x) /\
+  aget x (fst (build_bindings sc [BBind x v1; BBind y (36 :: x)] [])) = Some v1.
+Proof.
+  intros Hne Hx Hxy Hv1. rewrite build_bindings_see_file_scope_only. cbn [fold_left bind_in_file_scope].
+  unfold eval_in_scope. rewrite (eval_string_literal _ _ v1 Hv1). cbn [fst].
+  destruct x as [|b name]; [congruence|].
+  replace (36 :: b :: name) with (36 :: (b :: name) ++ []) by (rewrite app_nil_r; reflexivity).
+  rewrite eval_simple_var_longest; [|exact Hx | exact I].
+  unfold ev_then, scope_lookup. cbn [fst eval_string eval_go ev_done]. rewrite app_nil_r.
+  split.
+  - apply aget_aset_same.
+  - rewrite aget_aset_other by exact Hxy. cbn [aset aget]. rewrite bytes_eqb_refl. reflexivity.
+Qed.
+
+(* ================================================================ the quoting mode belongs to the query *)
+
+Lemma special_depfile : ~ special_name nm_depfile.
+Proof. intros [H|[H|H]]; discriminate H. Qed.
+
+(* rule: command = $depfile, depfile = $out<suffix>.  The quoting mode is fixed by the variable that is QUERIED and
+   kept through every nested expansion: the command sees the shell-escaped outputs also THROUGH $depfile, the
+   depfile attribute itself sees them unescaped *)
+Theorem quote_mode_is_per_query ex outs ps rule sc suffix :
+  @aget bytes nm_command ps = None -> @aget bytes nm_depfile ps = None ->
+  @aget bytes nm_command rule = Some (36 :: nm_depfile) ->
+  @aget bytes nm_depfile rule = Some (36 :: nm_out ++ suffix) ->
+  no_dollar suffix -> not_simple_head suffix ->
+  fst (lookup_named ex outs ps rule sc nm_command) = join_with 32 (map shell_escaped outs) ++ suffix /\
+  fst (lookup_named ex outs ps rule sc nm_depfile) = join_with 32 outs ++ suffix.
+Proof.
+  intros Hpc Hpd Hrc Hrd Hsuf Hhead.
+  assert (Hlen : exists k, length rule = S (S k)).
+  { destruct rule as [|[k1 v1] [|[k2 v2] r]]; cbn [length]; [discriminate Hrc | | eexists; reflexivity].
+    exfalso. cbn [aget] in Hrc, Hrd.
+    destruct (bytes_eqb nm_command k1) eqn:E1; [|discriminate Hrc].
+    destruct (bytes_eqb nm_depfile k1) eqn:E2; [|discriminate Hrd].
+    apply bytes_eqb_eq in E1, E2. rewrite <- E1 in E2. discriminate E2. }
+  destruct Hlen as [k Hk].
+  assert (Hdep : forall f esc active, mem_bytes nm_depfile active = false ->
+            lookup_var (S f) (mkCtx ex outs ps rule sc esc) active nm_depfile =
+            (join_with 32 (map (fun p => if esc then shell_escaped p else p) outs) ++ suffix, [])).
+  { intros f esc active Hact. rewrite (lookup_order _ _ _ _ special_depfile). cbn [bx_params bx_rule bx_scopes].
+    rewrite Hpd, Hrd, Hact.
+    change (36 :: nm_out ++ suffix) with (36 :: (111 :: [117; 116]) ++ suffix).
+    rewrite eval_simple_var_longest; [|repeat constructor | exact Hhead].
+    change (111 :: [117; 116]) with nm_out. rewrite out_expansion.
+    rewrite (eval_string_literal _ _ suffix Hsuf). unfold ev_then. cbn [fst snd app]. reflexivity. }
+  split.
+  - rewrite lookup_named_context, Hk. rewrite (lookup_order _ _ _ _ special_command). cbn [bx_params bx_rule bx_scopes mem_bytes].
+    rewrite Hpc, Hrc.
+    replace (36 :: nm_depfile) with (36 :: (100 :: [101; 112; 102; 105; 108; 101]) ++ []) by reflexivity.
+    rewrite eval_simple_var_longest; [|repeat constructor | exact I].
+    change (100 :: [101; 112; 102; 105; 108; 101]) with nm_depfile.
+    rewrite Hdep by reflexivity. replace (escapes_in_out nm_command) with true by reflexivity.
+    cbn [fst snd eval_string eval_go ev_done ev_then]. rewrite app_nil_r. reflexivity.
+  - rewrite lookup_named_context. rewrite (Hdep _ _ [] eq_refl).
+    replace (escapes_in_out nm_depfile) with false by reflexivity. cbn [fst].
+    rewrite map_id. reflexivity.
+Qed.
+
+(* the two rules on concrete manifests; the expected strings are those `ninja -t commands` / `ninja -n` 1.11.1 print
+
+   rule cc / command = gcc -MMD -MF $depfile @$rspfile -c $in -o $out / description = CC $out (deps in $depfile)
+           / depfile = $out.d / rspfile = $out.rsp / rspfile_content = $in
+   build my$ obj.o: cc my$ src.c *)
+Definition ex5_files : files :=
+  [([47; 119; 47; 109; 97; 105; 110; 46; 110; 105; 110; 106; 97], [DRule [99; 99] [BBind [99; 111; 109; 109; 97; 110; 100] [103; 99; 99; 32; 45; 77; 77; 68; 32; 45; 77; 70; 32; 36; 100; 101; 112; 102; 105; 108; 101; 32; 64; 36; 114; 115; 112; 102; 105; 108; 101; 32; 45; 99; 32; 36; 105; 110; 32; 45; 111; 32; 36; 111; 117; 116]; BBind [100; 101; 115; 99; 114; 105; 112; 116; 105; 111; 110] [67; 67; 32; 36; 111; 117; 116; 32; 40; 100; 101; 112; 115; 32; 105; 110; 32; 36; 100; 101; 112; 102; 105; 108; 101; 41]; BBind [100; 101; 112; 102; 105; 108; 101] [36; 111; 117; 116; 46; 100]; BBind [114; 115; 112; 102; 105; 108; 101] [36; 111; 117; 116; 46; 114; 115; 112]; BBind [114; 115; 112; 102; 105; 108; 101; 95; 99; 111; 110; 116; 101; 110; 116] [36; 105; 110]]; DBuild [[109; 121; 36; 32; 111; 98; 106; 46; 111]] [99; 99] [[109; 121; 36; 32; 115; 114; 99; 46; 99]] [] [] []])].
+Example ex5_quote_mode_per_query :
+  map (fun c => (c_command c, c_description c, c_depfile c, c_rspfile c, c_rspfile_content c))
+      (mf_commands (load 64 [47; 119] ex5_files [109; 97; 105; 110; 46; 110; 105; 110; 106; 97])) =
+  [([103; 99; 99; 32; 45; 77; 77; 68; 32; 45; 77; 70; 32; 39; 109; 121; 32; 111; 98; 106; 46; 111; 39; 46; 100; 32; 64; 39; 109; 121; 32; 111; 98; 106; 46; 111; 39; 46; 114; 115; 112; 32; 45; 99; 32; 39; 109; 121; 32; 115; 114; 99; 46; 99; 39; 32; 45; 111; 32; 39; 109; 121; 32; 111; 98; 106; 46; 111; 39], [67; 67; 32; 39; 109; 121; 32; 111; 98; 106; 46; 111; 39; 32; 40; 100; 101; 112; 115; 32; 105; 110; 32; 39; 109; 121; 32; 111; 98; 106; 46; 111; 39; 46; 100; 41], [109; 121; 32; 111; 98; 106; 46; 111; 46; 100], [47; 119; 47; 109; 121; 32; 111; 98; 106; 46; 111; 46; 114; 115; 112], [39; 109; 121; 32; 115; 114; 99; 46; 99; 39])].
+Proof. vm_compute. reflexivity. Qed.
+
+(* opt = -O0 / cflags = -Wall $opt / tag = dev
+   rule cc / command = gcc $cflags -c $in -o $out / description = CC[$tag] $out
+   build a.o: cc a.c / cflags = -Wextra $opt
+   build b.o: cc b.c / opt = -O3 / cflags = -Wall $opt -g        ($opt is still the file-level -O0)
+   build c.o: cc c.c / tag = rel / tag = ${tag}-signed           (${tag} is still the file-level dev) *)
+Definition ex6_files : files :=
+  [([47; 119; 47; 109; 97; 105; 110; 46; 110; 105; 110; 106; 97], [DBinding [111; 112; 116] [45; 79; 48]; DBinding [99; 102; 108; 97; 103; 115] [45; 87; 97; 108; 108; 32; 36; 111; 112; 116]; DBinding [116; 97; 103] [100; 101; 118]; DRule [99; 99] [BBind [99; 111; 109; 109; 97; 110; 100] [103; 99; 99; 32; 36; 99; 102; 108; 97; 103; 115; 32; 45; 99; 32; 36; 105; 110; 32; 45; 111; 32; 36; 111; 117; 116]; BBind [100; 101; 115; 99; 114; 105; 112; 116; 105; 111; 110] [67; 67; 91; 36; 116; 97; 103; 93; 32; 36; 111; 117; 116]];
+         DBuild [[97; 46; 111]] [99; 99] [[97; 46; 99]] [] [] [BBind [99; 102; 108; 97; 103; 115] [45; 87; 101; 120; 116; 114; 97; 32; 36; 111; 112; 116]]; DBuild [[98; 46; 111]] [99; 99] [[98; 46; 99]] [] [] [BBind [111; 112; 116] [45; 79; 51]; BBind [99; 102; 108; 97; 103; 115] [45; 87; 97; 108; 108; 32; 36; 111; 112; 116; 32; 45; 103]]; DBuild [[99; 46; 111]] [99; 99] [[99; 46; 99]] [] [] [BBind [116; 97; 103] [114; 101; 108]; BBind [116; 97; 103] [36; 123; 116; 97; 103; 125; 45; 115; 105; 103; 110; 101; 100]]])].
+Example ex6_build_bindings_file_scope :
+  map (fun c => (c_command c, c_description c)) (mf_commands (load 64 [47; 119] ex6_files [109; 97; 105; 110; 46; 110; 105; 110; 106; 97])) =
+  [([103; 99; 99; 32; 45; 87; 101; 120; 116; 114; 97; 32; 45; 79; 48; 32; 45; 99; 32; 97; 46; 99; 32; 45; 111; 32; 97; 46; 111], [67; 67; 91; 100; 101; 118; 93; 32; 97; 46; 111]); ([103; 99; 99; 32; 45; 87; 97; 108; 108; 32; 45; 79; 48; 32; 45; 103; 32; 45; 99; 32; 98; 46; 99; 32; 45; 111; 32; 98; 46; 111], [67; 67; 91; 100; 101; 118; 93; 32; 98; 46; 111]); ([103; 99; 99; 32; 45; 87; 97; 108; 108; 32; 45; 79; 48; 32; 45; 99; 32; 99; 46; 99; 32; 45; 111; 32; 99; 46; 111], [67; 67; 91; 100; 101; 118; 45; 115; 105; 103; 110; 101; 100; 93; 32; 99; 46; 111])].
+Proof. vm_compute. reflexivity. Qed.
+
